@@ -275,6 +275,11 @@ pub(crate) struct BudgetEnforcer {
     defined_anchors: FastHashSet<usize>,
     containers: SmallVec<[ContainerState; 64]>,
     policy: EnforcingPolicy,
+    /// True when the caller feeds the events of every alias expansion right after the
+    /// `Alias` event (the deserializer's replay). The expansion is then the node that
+    /// occupies the alias position, so the `Alias` event itself must not advance the
+    /// key/value tracking of the enclosing mapping.
+    aliases_are_expanded: bool,
 }
 
 #[derive(Clone, Copy, Debug)]
@@ -298,7 +303,14 @@ impl BudgetEnforcer {
             defined_anchors: FastHashSet::with_capacity(256),
             containers: SmallVec::new(),
             policy,
+            aliases_are_expanded: false,
         }
+    }
+
+    /// Declare that the events of each alias expansion are observed after the `Alias` event.
+    pub(crate) fn with_expanded_aliases(mut self) -> Self {
+        self.aliases_are_expanded = true;
+        self
     }
 
     /// Observe a parser [`Event`], updating the internal counters.
@@ -382,7 +394,9 @@ impl BudgetEnforcer {
                         aliases: self.report.aliases,
                     });
                 }
-                self.handle_alias();
+                if !self.aliases_are_expanded {
+                    self.handle_alias();
+                }
             }
             Event::DocumentStart(_explicit) => {
                 if self.policy == EnforcingPolicy::PerDocument {
